@@ -338,3 +338,20 @@ Proof. intros Hs H1 H2 H3. unfold Detached. rewrite Hs. eapply shadow_ctx_surviv
 Lemma spawned_bounded tk t0 timeout s :
   s_ctx s = shadow_ctx tk t0 timeout -> Bounded t0 timeout s.
 Proof. intros Hs. unfold Bounded. rewrite Hs. apply shadow_ctx_bounded. Qed.
+
+(* ---- rebuilding from the same configuration value ---- *)
+Lemma rebuilds_same n : forall bs, rebuilds n bs = (repeat (shadow_new bs) n, bs).
+Proof.
+  induction n as [|n IH]; intros bs; simpl; [reflexivity|]. rewrite IH. reflexivity.
+Qed.
+
+Definition rb_reg : backend := {| b_id := 1; b_timeout := 2000; b_ns := NsAbsent; b_method := "GET" |}.
+Definition rb_sh : backend := {| b_id := 0; b_timeout := 2000; b_ns := NsMap (FBool true) TAbsent; b_method := "GET" |}.
+
+Lemma inplace_filter_refuted : exists bs,
+  fst (new_inplace bs) = BShadowed [rb_reg] [rb_sh] 2000%Z /\
+  snd (new_inplace bs) <> bs /\
+  fst (new_inplace (snd (new_inplace bs))) = BPlain [rb_reg; rb_reg].
+Proof.
+  exists [rb_sh; rb_reg]. vm_compute. split; [reflexivity|]. split; [discriminate|reflexivity].
+Qed.
